@@ -839,6 +839,35 @@ def _static_bounds(F, b):
     return out
 
 
+def _shifts_guarded_at_run_time(b, param, w):
+    """every overflow check of a shift by `param` on every enumerated path is preceded by a decision `param < K`, K <= w"""
+    try:
+        _, paths = rules.evaluate(b)
+    except Exception:
+        return False
+    if not paths:
+        return False
+    n = 0
+    for r in paths:
+        for i, e in enumerate(r.events):
+            if e['kind'] != 'ovf_check' or 'Sh' not in str(e.get('msg')) or not sym.contains(e['cond'], lambda x: x == ('c', param)):
+                continue
+            n += 1
+            ok = False
+            for t, v, _ in r.preds[:rules.preds_before(r, i)]:
+                if isinstance(v, tuple) or t[0] != 'bin' or t[1] not in ('Lt', 'Le', 'Gt', 'Ge'):
+                    continue
+                op = t[1] if v else {'Lt': 'Ge', 'Le': 'Gt', 'Gt': 'Le', 'Ge': 'Lt'}[t[1]]
+                l, rr = t[2], t[3]
+                if l == ('c', param) and _const_width(rr) is not None and ((op == 'Lt' and _const_width(rr) <= w) or (op == 'Le' and _const_width(rr) < w)):
+                    ok = True
+                if rr == ('c', param) and _const_width(l) is not None and ((op == 'Gt' and _const_width(l) <= w) or (op == 'Ge' and _const_width(l) < w)):
+                    ok = True
+            if not ok:
+                return False
+    return n > 0
+
+
 def check_const_shift_bounded(ctx, F):
     """A built-in shift of a concrete integer by a const generic parameter (`1usize << PRECISION`) overflows when the parameter
     reaches the width of the integer: a panic in debug builds, a masked shift (1 << 0) in release builds - arithmetic that is only
@@ -876,6 +905,8 @@ def check_const_shift_bounded(ctx, F):
                 ctx.unresolved('R9', role, b.defpath, 'width of the shifted type not known', key=key)
             elif param in bounds and bounds[param] <= w:
                 ctx.ok('R9', role, b.defpath, '%d shift(s) by %s of a %d-bit integer; static assertion %s < %d in the same function' % (len(spans), param, w, param, bounds[param]), key=key)
+            elif _shifts_guarded_at_run_time(b, param, w):
+                ctx.ok('R9', role, b.defpath, '%d shift(s) by %s of a %d-bit integer, each behind a decision `%s < %d` on its path (the const comparison is evaluated before the shift)' % (len(spans), param, w, param, w), key=key)
             else:
                 ctx.bad('R9', role, b.defpath, '%d shift(s) of a %d-bit integer by the const parameter %s, and no compile-time assertion in this function keeps %s below %d%s: with %s == %d the shift panics in debug builds and is a shift by zero in release builds (a one-entry table behind an unchecked index)' % (
                     len(spans), w, param, param, w, (' (the assertions present only give %s < %d)' % (param, bounds[param])) if param in bounds else '', param, w), key=key, loc=spans[0].split('-')[0])
